@@ -67,6 +67,9 @@ def type_of_specifier(ts):
     raise Unmodelled("composite type specifier")
 
 
+OPTIONAL_HITS = 0
+
+
 def type_of_specifier_list(items):
     """`unsigned int` (the only multi-word type name the transformer accepts) and `const T`"""
     flat = []
@@ -78,6 +81,8 @@ def type_of_specifier_list(items):
             ("unsigned", "long", "long", "int"): (False, 64), ("long", "long", "int"): (True, 64),
             ("unsigned", "char"): (False, 8), ("signed", "char"): (True, 8), ("unsigned", "short"): (False, 16), ("signed", "int"): (True, 32)}
     if raw in std0:   # spellings whose width is the same under every C data model (a bare `long` is not: left unmodelled)
+        global OPTIONAL_HITS
+        OPTIONAL_HITS += 1   # the compiler may reject these spellings (it does today); if it accepts them they mean what C says
         return " ".join(raw), std0[raw]
     sp = [type_of_specifier(x) if is_tree(x) else (tok(x), None) for x in items]
     if len(sp) == 2 and sp[0][0] == "unsigned" and sp[1][0] == "int":
